@@ -1,4 +1,4 @@
 SPECIFICATION Spec
-CONSTANT Lits <- ML
-INVARIANT Inv
+CONSTRAINT Track
+POSTCONDITION Post
 CHECK_DEADLOCK FALSE
